@@ -109,9 +109,16 @@ def errName : ErrClass → String
   | .eof => "eof" | .unavailable => "rpc:Unavailable" | .ctxCanceled => "ctx-canceled"
   | .rpcCanceled => "rpc:Canceled" | .blocked => "blocked"
 
+/-- `i` = ordinal among the streams the server plays (message ids are `i.n`); an element with a
+`fault` is an open attempt that fails on the client side -/
 def streamOfJson (i : Nat) (j : Json) : Stream String :=
-  { msgs := (List.range (jnat (jget j "k"))).map fun n => s!"{i}.{n}",
-    fin := match jstr (jget j "end") with | "eof" => .eof | "hang" => .hang | _ => .err }
+  if jstr (jget j "fault") != "" then .failed else
+  .served { msgs := (List.range (jnat (jget j "k"))).map fun n => s!"{i}.{n}",
+            fin := match jstr (jget j "end") with | "eof" => .eof | "hang" => .hang | _ => .err }
+
+def scriptOfJson : Nat → List Json → List (Stream String)
+  | _, [] => []
+  | i, j :: r => streamOfJson i j :: scriptOfJson (if jstr (jget j "fault") != "" then i else i + 1) r
 
 def enumFrom {α} : Nat → List α → List (Nat × α)
   | _, [] => []
@@ -141,7 +148,7 @@ def handleC36 (j : Json) : Json :=
     let watch := (jstrs (jget j "allow")).contains ("/pb.CoreRPC/" ++ method)
     -- WatchServiceStatus / NodeStatusStream take an Empty request: the server logs ""
     let req := if method == "WatchServiceStatus" || method == "NodeStatusStream" then "" else req
-    let script := (enumFrom 0 (jarr (jget j "script"))).map fun (i, s) => streamOfJson i s
+    let script := scriptOfJson 0 (jarr (jget j "script"))
     let ca : Option Nat := if jint (jget j "cancel_after") < 0 then none else some (jnat (jget j "cancel_after"))
     let cb := jbool (jget j "cancel_blocked")
     let cbFired := cb && jhas impl "seen_at_cancel"
@@ -153,7 +160,7 @@ def handleC36 (j : Json) : Json :=
     let agree := !crash && r.delivered == delivered && r.final.reqs == seen && errName r.err == ierr
     -- the specification decides "watch stream" by the property's own list, not by the code's allow-list
     let specWatch := watchMethods.contains ("/pb.CoreRPC/" ++ method)
-    let viol := specStream specWatch max ca cbFired script req delivered seen (jnat (jget impl "seen_at_cancel")) ++
+    let viol := specStream specWatch max ca cbFired script req delivered (jnat (jget impl "opens")) seen (jnat (jget impl "seen_at_cancel")) ++
                 specAllow (jstrs (jget j "allow"))
     let reopened := seen.length > 1
     verdict id agree
